@@ -33,4 +33,26 @@ theorem src_C19_merge {α : Type} (p : PVal α) (c : α) :
   unfold mergeKey cli_mergeCond useDefaultCreationOptions cli_defaultCoCond
   exact ⟨rfl, fun _ _ => rfl⟩
 
+/-- `RasterCompare.process`, `ParamStats.stats` (C04, C11, C12): workers return the sums of their own block and the caller adds
+    them up in completion order - the shape under which `fold_perm` (C11) makes the totals independent of the schedule.  A worker
+    that touches a shared accumulator changes the generated list (or fails to translate). -/
+theorem src_C04_accumulate : accumulateModel = accumulate_compare ∧ accumulateModel = accumulate_stats := ⟨rfl, rfl⟩
+
+/-- `cli.fuse`, `cli.compare` (C18, C19, C10): the per-source loop re-binds no option of the command - every source of one call is
+    processed with the options as given -/
+theorem src_C19_loops : fuseLoopRebinds = cli_fuseLoopRebinds ∧ compareLoopRebinds = cli_compareLoopRebinds := ⟨rfl, rfl⟩
+
+/-- `_merge_corr_profile`, `_merge_param_profile`, `_set_metadata` (C13, C10, C14): the caller's `out_profile` is only read, the
+    parameter encoding is forced on the merged copy, every configuration value is tagged -/
+theorem src_C13_profiles : paramProfileSteps = profile_paramSteps ∧ corrProfileSteps = profile_corrSteps ∧
+    metaTagSteps = profile_metaTags := ⟨rfl, rfl, rfl⟩
+
+/-- `_nodata_cb` (C19): the words that mean "no nodata value" and the number parser are the source's -/
+theorem src_C19_nodata_cb (l : String) (isNumber : String → Bool) :
+    nodataCb (some l) isNumber = (if l ∈ cli_nodataNullWords then .null else if isNumber l then .number l else .invalid) ∧
+      nodataParser = cli_nodataParser := by
+  refine ⟨?_, rfl⟩
+  unfold nodataCb cli_nodataNullWords
+  simp only [List.mem_cons, List.mem_nil_iff, or_false]
+
 end Homonim
